@@ -415,42 +415,7 @@ func checkC10(r *Result) {
 	// selection must not be a way around the lock of SwitchReporter. Today the removal is only reachable for a
 	// reporter with more selectors than the cap (which joining never produces); relaxing that comparison opens
 	// "remove, select another reporter, report again in the same window".
-	if rs := P.Func("(x/reporter/keeper.msgServer).RemoveSelector"); rs == nil {
-		r.broken("anchor RemoveSelector does not resolve")
-	} else {
-		r.fn("(x/reporter/keeper.msgServer).RemoveSelector")
-		ps := AnalyzePaths(rs, []Atom{{Name: "hasMin", Stable: true, Cond: func(rel *Term) (bool, bool) {
-			// the one HasMin result is tested twice (`if hasMin {return}` ... `if !hasMin {`): a stable atom, so
-			// that the branch that skips the cap test is known to be infeasible
-			return rel.Op == "ext:0" && len(rel.Args) == 1 && strings.HasSuffix(rel.Args[0].Op, "Keeper).HasMin"), true
-		}}, {Name: "overCap", Cond: func(rel *Term) (bool, bool) {
-			if len(rel.Args) != 2 {
-				return false, true
-			}
-			isLen := func(t *Term) bool {
-				return strings.HasPrefix(t.Op, "len") || t.Contains("len") && !t.Contains("MaxSelectors")
-			}
-			isCap := func(t *Term) bool { return t.Contains("Params.MaxSelectors") }
-			a, b := rel.Args[0], rel.Args[1]
-			switch {
-			case rel.Op == "<=" && isLen(a) && isCap(b): // len <= cap : over the cap when false
-				return true, false
-			case rel.Op == "<" && isCap(a) && isLen(b): // cap < len : over the cap when true
-				return true, true
-			}
-			return false, true
-		}}})
-		n := 0
-		for _, cs := range P.Sites(descIs("coll:x/reporter/keeper.Keeper.Selectors.Remove")) {
-			if TopFunc(cs.Fn) != rs {
-				continue
-			}
-			n++
-			bad := ps.Require(cs.Instr, func(v map[string]bool) bool { return v["overCap"] })
-			r.check(len(bad) == 0 && len(ps.Matched["overCap"]) > 0, "SWITCH-LOCK", "(x/reporter/keeper.msgServer).RemoveSelector # a selection (and its lock) is removed only from a reporter that holds more selectors than the cap", P.Pos(cs.Pos()), fmt.Sprintf("valuations: %v", statesStr(ps, cs.Instr)))
-		}
-		r.check(n == 1, "SWITCH-LOCK", "(x/reporter/keeper.msgServer).RemoveSelector # one removal site", P.Pos(rs.Pos()), fmt.Sprint(n))
-	}
+	checkRemoveOnlyOverCap(r, "SWITCH-LOCK", "a selection (and its lock) is removed only from a reporter that holds more selectors than the cap")
 	if cr := need("(x/reporter/keeper.msgServer).CreateReporter"); cr != nil {
 		requireAtSuccess(r, "JOIN-GUARDS", cr, "a created reporter is stored together with its self-selection", []Atom{
 			{Name: "reporter", Event: P.CallEvent(descIs("coll:x/reporter/keeper.Keeper.Reporters.Set"), T)},
@@ -605,4 +570,46 @@ func allReturns(fn *ssa.Function) []*ssa.Return {
 		}
 	}
 	return out
+}
+
+// checkRemoveOnlyOverCap: Selectors.Remove in RemoveSelector happens only for a reporter that holds more selectors
+// than the cap (which the join guards never allow: the removal is the exception for a lowered cap).
+func checkRemoveOnlyOverCap(r *Result, rule, what string) {
+	P := r.P
+	if rs := P.Func("(x/reporter/keeper.msgServer).RemoveSelector"); rs == nil {
+		r.broken("anchor RemoveSelector does not resolve")
+	} else {
+		r.fn("(x/reporter/keeper.msgServer).RemoveSelector")
+		ps := AnalyzePaths(rs, []Atom{{Name: "hasMin", Stable: true, Cond: func(rel *Term) (bool, bool) {
+			// the one HasMin result is tested twice (`if hasMin {return}` ... `if !hasMin {`): a stable atom, so
+			// that the branch that skips the cap test is known to be infeasible
+			return rel.Op == "ext:0" && len(rel.Args) == 1 && strings.HasSuffix(rel.Args[0].Op, "Keeper).HasMin"), true
+		}}, {Name: "overCap", Cond: func(rel *Term) (bool, bool) {
+			if len(rel.Args) != 2 {
+				return false, true
+			}
+			isLen := func(t *Term) bool {
+				return strings.HasPrefix(t.Op, "len") || t.Contains("len") && !t.Contains("MaxSelectors")
+			}
+			isCap := func(t *Term) bool { return t.Contains("Params.MaxSelectors") }
+			a, b := rel.Args[0], rel.Args[1]
+			switch {
+			case rel.Op == "<=" && isLen(a) && isCap(b): // len <= cap : over the cap when false
+				return true, false
+			case rel.Op == "<" && isCap(a) && isLen(b): // cap < len : over the cap when true
+				return true, true
+			}
+			return false, true
+		}}})
+		n := 0
+		for _, cs := range P.Sites(descIs("coll:x/reporter/keeper.Keeper.Selectors.Remove")) {
+			if TopFunc(cs.Fn) != rs {
+				continue
+			}
+			n++
+			bad := ps.Require(cs.Instr, func(v map[string]bool) bool { return v["overCap"] })
+			r.check(len(bad) == 0 && len(ps.Matched["overCap"]) > 0, rule, "(x/reporter/keeper.msgServer).RemoveSelector # "+what, P.Pos(cs.Pos()), fmt.Sprintf("valuations: %v", statesStr(ps, cs.Instr)))
+		}
+		r.check(n == 1, rule, "(x/reporter/keeper.msgServer).RemoveSelector # one removal site", P.Pos(rs.Pos()), fmt.Sprint(n))
+	}
 }
